@@ -529,24 +529,35 @@ func stripPointersAndOAIGen(opts *FlattenOpts) error {
 // A pointer is replaced by a copy of its target: when that target holds a pointer of its own which is only replaced
 // later in the same pass (the deeper caller is handled first), the copy still holds it.
 func namePointersUntilNoneLeft(opts *FlattenOpts) error {
-	var previous string
+	var (
+		previousTargets string
+		previousCount   int
+	)
 	for {
 		if err := namePointers(opts); err != nil {
 			return err
 		}
 
-		remaining := make([]string, 0, len(opts.Spec.references.allRefs))
-		for key, ref := range opts.Spec.references.allRefs {
+		// progress is measured on the targets left to resolve, not on their holders: expanding a pointer into a schema
+		// which contains that very pointer yields a new, deeper holder at every pass.
+		count := 0
+		targets := make(map[string]struct{}, len(opts.Spec.references.allRefs))
+		for _, ref := range opts.Spec.references.allRefs {
 			if path.Dir(ref.String()) != definitionsPath {
-				remaining = append(remaining, key+"="+ref.String())
+				targets[ref.String()] = struct{}{}
+				count++
 			}
+		}
+		remaining := make([]string, 0, len(targets))
+		for target := range targets {
+			remaining = append(remaining, target)
 		}
 		sort.Strings(remaining)
 		left := strings.Join(remaining, ", ")
-		if left == "" || left == previous {
+		if count == 0 || (left == previousTargets && count >= previousCount) {
 			return nil
 		}
-		previous = left
+		previousTargets, previousCount = left, count
 	}
 }
 
